@@ -22,7 +22,7 @@ var scopes = map[string][]string{
 	"C01": {`^Failover(Of)?\.`},
 	"C02": {`^Failover(Of)?\.`, `^(shardedMap|shardedMapOf|syncMap)\.(Read|Write)$`},
 	"C03": {`^Failover(Of)?\.`, `^NewFailover(Of)?$`, `^WithTTL$`, `^detachedContext\.`, `^Trait(Of)?\.PrepareRead$`, `^(shardedMap|shardedMapOf|syncMap)\.Read$`},
-	"C04": {`^Failover(Of)?\.`, `^detachedContext\.`, `^NewFailover(Of)?$`, `^Trait\.TTL$`, `^(shardedMap|shardedMapOf|syncMap)\.(Read|Write|Delete|Walk)$`},
+	"C04": {`^Failover(Of)?\.`, `^detachedContext\.`, `^NewFailover(Of)?$`, `^Trait\.(TTL|NotifyWritten|NotifyDeleted|countOverflow)$`, `^Trait(Of)?\.PrepareRead$`, `^(shardedMap|shardedMapOf|syncMap)\.(Read|Write|Delete|Walk)$`},
 	"C05": {`^Failover(Of)?\.`, `^NewFailover(Of)?$`, `^WithTTL$`, `^(shardedMap|shardedMapOf)\.(Read|Write|Delete)$`, `^(ShardedMap|ShardedMapOf)\.Restore$`},
 	"C06": {`^Failover(Of)?\.`, `^NewFailover(Of)?$`, `^WithTTL$`, `^TTL$`, `^SkipRead$`, `^detachedContext\.`, `^Trait\.TTL$`, `\.Read$`, `^(shardedMap|shardedMapOf|syncMap)\.Write$`},
 	"C07": {`^(shardedMap|shardedMapOf|syncMap)\.(Read|Write|Delete|ExpireAll|DeleteAll|Len|Load|Store|Walk)$`, `^Trait(Of)?\.PrepareRead$`, `^Trait\.(TTL|expireAt)$`, `^WithTTL$`, `^TTL$`, `^SkipRead$`, `^NoOp\.`, `^errExpired(Of)?\.`, `^(ShardedMap|ShardedMapOf|SyncMap)\.Restore$`},
@@ -32,7 +32,7 @@ var scopes = map[string][]string{
 	"C11": {`^Trait\.(invokeCleanup|TTL|init|janitor|heapInUseOverflow|sysOverflow|countOverflow)$`, `\.deleteExpired$`, `^NewTraitOf$`, `^New(ShardedMap|ShardedMapOf|SyncMap|Failover|FailoverOf)$`, `^(shardedMap|shardedMapOf|syncMap)\.Len$`},
 	"C12": {`^Trait\.(invokeCleanup|heapInUseOverflow|sysOverflow|countOverflow|init)$`, `\.evict`, `^New(ShardedMap|ShardedMapOf|SyncMap)$`, `^Trait(Of)?\.PrepareRead$`, `^(shardedMap|shardedMapOf|syncMap)\.(Len|ExpireAll|Load)$`},
 	"C13": {`\.(Dump|Restore|Walk|WalkDumpRestorer)$`, `^ts$`, `^tsTime$`, `^GobRegister$`, `^HTTPTransfer\.Import$`, `^(shardedMap|shardedMapOf|syncMap)\.(Write|ExpireAll|DeleteAll)$`},
-	"C14": {`^HTTPTransfer\.`, `^Gob`, `^recursiveTypeHash$`},
+	"C14": {`^HTTPTransfer\.`, `^Gob`, `^recursiveTypeHash$`, `^init$`, `\.(Dump|Restore)$`},
 	"C15": {`^InvalidationIndex\.`, `^New(ShardedMap|ShardedMapOf|SyncMap|InvalidationIndex)$`, `^(shardedMap|shardedMapOf|syncMap)\.Delete$`},
 	"C16": {`^(shardedMap|shardedMapOf|syncMap|ShardedMap|ShardedMapOf|SyncMap)\.`, `^InvalidationIndex\.`, `^Invalidator\.`, `^Failover(Of)?\.Get$`, `^Trait(Of)?\.`, `^New(ShardedMap|ShardedMapOf|SyncMap)$`, `^WithTTL$`},
 	"C17": {`^Invalidator\.`},
